@@ -110,6 +110,142 @@ def to_poly(e: ast.AST, matrix: str, n: int, env: dict[str, ast.AST], depth: int
     raise NotPolynomial(f"`{ast.unparse(e)[:50]}` is not built from entries of `{matrix}` with + - *")
 
 
+# ---- vectorised closed forms: small constant index arrays and vectors of polynomials
+def _triu_indices(n: int, k: int = 0):
+    rows, cols = [], []
+    for i in range(n):
+        for j in range(max(i + k, 0), n):
+            rows.append(i)
+            cols.append(j)
+    return rows, cols
+
+
+def to_polyvec(e: ast.AST, matrix: str, n: int, env: dict, depth: int = 0):
+    """value of e as: int | list[int] (constant index array) | Poly | list[Poly] (vector of polynomials in the entries of `matrix`)"""
+    if depth > 14:
+        raise NotPolynomial("too deep")
+    c = _const_int(e)
+    if c is not None:
+        return c
+    if isinstance(e, ast.Name):
+        if e.id in env:
+            v = env[e.id]
+            return v if not isinstance(v, ast.AST) else to_polyvec(v, matrix, n, env, depth + 1)
+        raise NotPolynomial(f"name `{e.id}`")
+    if isinstance(e, (ast.List, ast.Tuple)):
+        vals = [to_polyvec(x, matrix, n, env, depth + 1) for x in e.elts]
+        if all(isinstance(v, int) for v in vals):
+            return vals
+        return tuple(vals)  # a tuple of index arrays / vectors: only unpacking uses it
+    if isinstance(e, ast.Subscript) and isinstance(e.value, ast.Name) and e.value.id == matrix and isinstance(e.slice, ast.Tuple):
+        elts = list(e.slice.elts)
+        if elts and isinstance(elts[0], ast.Constant) and elts[0].value is Ellipsis:
+            elts = elts[1:]
+        if len(elts) == 2:
+            i, j = (to_polyvec(x, matrix, n, env, depth + 1) for x in elts)
+            if isinstance(i, int) and isinstance(j, int):
+                return {((i % n, j % n),): 1}
+            li = i if isinstance(i, list) else None
+            lj = j if isinstance(j, list) else None
+            if (li is None and not isinstance(i, int)) or (lj is None and not isinstance(j, int)):
+                raise NotPolynomial("entry index is not a constant")
+            m = len(li if li is not None else lj)
+            if li is not None and lj is not None and len(li) != len(lj):
+                raise NotPolynomial("index arrays of different length")
+            return [{(((li[k] if li is not None else i) % n, (lj[k] if lj is not None else j) % n),): 1} for k in range(m)]
+    if isinstance(e, ast.Subscript):
+        base = to_polyvec(e.value, matrix, n, env, depth + 1)
+        if isinstance(base, list) and isinstance(e.slice, ast.Slice):
+            lo = _const_int(e.slice.lower) if e.slice.lower is not None else None
+            hi = _const_int(e.slice.upper) if e.slice.upper is not None else None
+            st = _const_int(e.slice.step) if e.slice.step is not None else None
+            return base[slice(lo, hi, st)]
+        if isinstance(base, (list, tuple)) and _const_int(e.slice) is not None:
+            return base[_const_int(e.slice)]
+        raise NotPolynomial("subscript")
+    if isinstance(e, ast.UnaryOp) and isinstance(e.op, ast.USub):
+        v = to_polyvec(e.operand, matrix, n, env, depth + 1)
+        return _pv_map2(0, v, lambda a, b: _pv_sub(a, b))
+    if isinstance(e, ast.BinOp):
+        l, r = to_polyvec(e.left, matrix, n, env, depth + 1), to_polyvec(e.right, matrix, n, env, depth + 1)
+        if isinstance(e.op, ast.Add):
+            return _pv_map2(l, r, lambda a, b: _pv_add(a, b))
+        if isinstance(e.op, ast.Sub):
+            return _pv_map2(l, r, lambda a, b: _pv_sub(a, b))
+        if isinstance(e.op, ast.Mult):
+            return _pv_map2(l, r, lambda a, b: _pv_mul(a, b))
+        if isinstance(e.op, ast.Pow):
+            def pw(a, b):
+                if isinstance(a, int) and isinstance(b, int) and b >= 0:
+                    return a ** b
+                if isinstance(b, int) and 0 <= b <= 4:
+                    out = {(): 1}
+                    for _ in range(b):
+                        out = p_mul(out, _as_poly(a))
+                    return out
+                raise NotPolynomial("power")
+            return _pv_map2(l, r, pw)
+    if isinstance(e, ast.Call):
+        f = e.func
+        name = f.attr if isinstance(f, ast.Attribute) else getattr(f, "id", "")
+        if name == "triu_indices" and e.args:
+            a0 = to_polyvec(e.args[0], matrix, n, env, depth + 1)
+            k0 = to_polyvec(e.args[1], matrix, n, env, depth + 1) if len(e.args) > 1 else next((to_polyvec(k.value, matrix, n, env, depth + 1) for k in e.keywords if k.arg == "k"), 0)
+            if isinstance(a0, int) and isinstance(k0, int):
+                return tuple(_triu_indices(a0, k0))
+        if name == "arange" and len(e.args) == 1 and isinstance(to_polyvec(e.args[0], matrix, n, env, depth + 1), int):
+            return list(range(to_polyvec(e.args[0], matrix, n, env, depth + 1)))
+        if name == "array" and e.args:
+            return to_polyvec(e.args[0], matrix, n, env, depth + 1)
+        if name == "sum" and e.args:
+            v = to_polyvec(e.args[0], matrix, n, env, depth + 1)
+            if isinstance(v, list):
+                out: Poly = {}
+                for x in v:
+                    out = p_add(out, _as_poly(x))
+                return out
+            return v
+    raise NotPolynomial(f"`{ast.unparse(e)[:50]}` is outside the vocabulary of vectorised closed forms")
+
+
+def _as_poly(x) -> Poly:
+    if isinstance(x, dict):
+        return x
+    if isinstance(x, int):
+        return {(): x} if x else {}
+    raise NotPolynomial("not a polynomial")
+
+
+def _pv_add(a, b):
+    if isinstance(a, int) and isinstance(b, int):
+        return a + b
+    return p_add(_as_poly(a), _as_poly(b))
+
+
+def _pv_sub(a, b):
+    if isinstance(a, int) and isinstance(b, int):
+        return a - b
+    return p_add(_as_poly(a), _as_poly(b), -1)
+
+
+def _pv_mul(a, b):
+    if isinstance(a, int) and isinstance(b, int):
+        return a * b
+    return p_mul(_as_poly(a), _as_poly(b))
+
+
+def _pv_map2(l, r, f):
+    if isinstance(l, list) and isinstance(r, list):
+        if len(l) != len(r):
+            raise NotPolynomial("vectors of different length")
+        return [f(a, b) for a, b in zip(l, r)]
+    if isinstance(l, list):
+        return [f(a, r) for a in l]
+    if isinstance(r, list):
+        return [f(l, b) for b in r]
+    return f(l, r)
+
+
 def _fmt_mono(k, v) -> str:
     return ("+" if v > 0 else "-") + (str(abs(v)) if abs(v) != 1 else "") + "".join(f"A{i}{j}" for i, j in k)
 
@@ -194,8 +330,25 @@ def rule_det(run: Run, prog: Program) -> int:
             try:
                 poly = to_poly(r.value, A_, k, env)
             except NotPolynomial as e:
-                run.add("E12.det", fn.short, label, UNDECIDED, f"closed form not read as a polynomial: {e}", loc)
-                continue
+                # a vectorised closed form: constant index arrays (np.triu_indices ...), vectors of entries, np.sum over them
+                try:
+                    venv: dict = {}
+                    for s2 in body:
+                        if isinstance(s2, ast.Assign) and len(s2.targets) == 1:
+                            t2 = s2.targets[0]
+                            val2 = to_polyvec(s2.value, A_, k, venv)
+                            if isinstance(t2, ast.Name):
+                                venv[t2.id] = val2
+                            elif isinstance(t2, ast.Tuple) and isinstance(val2, (tuple, list)) and len(val2) == len(t2.elts):
+                                for tt, vv in zip(t2.elts, val2):
+                                    if isinstance(tt, ast.Name):
+                                        venv[tt.id] = vv
+                    poly = to_polyvec(r.value, A_, k, venv)
+                    if not isinstance(poly, dict):
+                        raise NotPolynomial("the returned value is not a single polynomial")
+                except NotPolynomial as e2:
+                    run.add("E12.det", fn.short, label, UNDECIDED, f"closed form not read as a polynomial: {e}; nor as a vectorised form: {e2}", loc)
+                    continue
             want = leibniz(k)
             if poly == want:
                 run.add("E12.det", fn.short, label, PROVEN, f"the {len(want)} signed monomials of the {k}x{k} determinant", loc)
